@@ -70,7 +70,7 @@ PROPS["C18"] = {
 }
 
 PROPS["C20"] = {
-    "explanation": "Bounded symbolic execution (gosx) of the real device.CompareFiles -> getRealDevice, loadSpoc, ParseConfig (cisco: lookupCmd, matchCmd, postprocessParsed, postprocessACLParts, checkReferences; linux: parseIPTables, parseRoutes), MergeSpoc and GetChanges on the repository's own test configurations in which one line is replaced by a solver-chosen member of the property's mutation family (word-prefix truncations, single-token deletions, duplications, swaps, indentation changes). Any Go run-time panic that is not errlog's bailout, and any exit status other than 0/1, is a violation; each is replayed natively. Info file: device.CompareFiles / ApproveOrCompare with <code>.info (v4, ipv6 or both) replaced by one of 22 damaged variants (codefiles.LoadInfoFile, getRealDevice); status file: missing-approve check and status.SetCompare / SetApprove on 19 damaged variants.",
+    "explanation": "Bounded symbolic execution (gosx) of the real device.CompareFiles -> getRealDevice, loadSpoc, ParseConfig (cisco: lookupCmd, matchCmd, postprocessParsed, postprocessACLParts, checkReferences; linux: parseIPTables, parseRoutes), MergeSpoc and GetChanges on the repository's own test configurations in which one line is replaced by a solver-chosen member of the property's mutation family (word-prefix truncations, single-token deletions, duplications, swaps, indentation changes). Any Go run-time panic that is not errlog's bailout, and any exit status other than 0/1, is a violation; each is replayed natively. Empty / garbage files for all five device types in all four argument positions (device.VerifGarbageFile); structurally damaged but syntactically valid NSX JSON and PAN-OS XML (null elements, empty lists, missing containers, self-referencing groups; 22 + 19 variants; device.VerifGarbageStruct; unbounded recursion is reported as a crash at call depth 5000). Info file: device.CompareFiles / ApproveOrCompare with <code>.info (v4, ipv6 or both) replaced by one of 22 damaged variants (codefiles.LoadInfoFile, getRealDevice); status file: missing-approve check and status.SetCompare / SetApprove on 19 damaged variants.",
     "bounds": {"quick": "ASA, IOS, Linux (files of at most 60 lines), NSX and PAN-OS (at most 120 lines, one representative per distinct line text) file-compare cases of go/testdata: one representative line per kind (model, argument position, indentation, first three words, word count), up to 63 mutations per line, both argument positions (device file, Netspoc code, raw, ipv6)",
                "thorough": "every (case, file, line) triple"},
     "outside": "mutations inside a JSON / XML token (the family is word based), info and status file contents beyond the two families of 22 / 19 damaged variants, do-approve and missing-approve front ends, hangs (step budget only), mutations of more than one line at a time",
@@ -80,6 +80,8 @@ PROPS["C20"] = {
          "quick": {"dedupe": "1", "stride": "1"}, "thorough": {"stride": "1"},
          "extra": {"maxpaths": 2000000},
          "covers": ["input rejected with exit status 1", "input accepted", "targets selected"]},
+        {"entry": M + "/pkg/device.VerifGarbageFile", "covers": ["input rejected with exit status 1", "input accepted"]},
+        {"entry": M + "/pkg/device.VerifGarbageStruct", "extra": {"maxsteps": 20000000}, "covers": ["input rejected with exit status 1", "input accepted"]},
         {"entry": M + "/pkg/device.VerifGarbageInfo", "covers": ["input rejected with exit status 1", "input accepted"]},
         {"entry": M + "/cmd/missing-approve.VerifGarbageStatus", "covers": ["missing-approve check on damaged status", "status operation survived"]},
     ],
